@@ -14,7 +14,7 @@ import (
 func (e *Engine) newProof(fn *ssa.Function) *Proof {
 	p := &Proof{eng: e, fn: fn, fname: e.funcDisplayName(fn), notes: map[string]bool{}, unmodelled: map[string]bool{}, inlined: map[string]bool{},
 		assumedLib: map[string]bool{}, initHeap: map[string]*Term{}, params: map[string]Value{}, specApps: map[string]bool{},
-		strSeen: map[int]bool{}, specSeen: map[int]bool{}}
+		strSeen: map[int]bool{}, specSeen: map[int]bool{}, typeInvSeen: map[int]bool{}}
 	p.privateBytes = e.privateNext
 	return p
 }
